@@ -6,6 +6,7 @@ import Glom.Spec.C10
   spec trees, lists of children, Switch cases and dict entries).
 -/
 set_option linter.unusedSimpArgs false
+set_option linter.unusedSectionVars false
 
 namespace Glom.C10
 open Glom Glom.MV
@@ -408,6 +409,16 @@ theorem runValidators_some (a : Arg) (x t0 : V) (rest : List (Cond × Log)) (fs 
         | raise e => simp only at this
         | errs n => simp only at this ⊢; rw [this]; simp [List.append_assoc]
 
+
+omit hw in
+theorem all_holds_eq (fs : List Fn) (x : V) :
+    (fs.all fun f => validatorCond f x == Cond.holds) =
+      ((fs.filter fun f => validatorCond f x != Cond.holds).length == 0) := by
+  induction fs with
+  | nil => rfl
+  | cons f fs ih =>
+    simp only [List.all_cons, List.filter_cons, ih]
+    cases validatorCond f x <;> simp
 
 omit hw in
 theorem cwd_opt (a : Arg) (x t0 : V) (absent ok : Bool) (rest : List (Cond × Log)) (bad : Bool) :
@@ -948,12 +959,13 @@ theorem eval_rel : ∀ (s : Spec) (t : V), ctorErr s = none → keysOK s = true 
     | dict items =>
       have hcd : ctorErrD es = none := by simpa [ctorErr] using hc
       have hkd : keysOKD es = true := by simpa [keysOK] using hk
+      rw [required_eq es 0 hkd]
       have hl := dictLoop_rel hw (dictFind env es 0) (denKey env.cls es 0)
-        (fun k v => dictFind_rel es 0 k v hcd hkd) (requiredIdx es 0) items [] (requiredIdx es 0) []
-        (by simp)
+        (fun k v => dictFind_rel es 0 k v hcd hkd) (requiredRef es 0) items [] (requiredRef es 0) []
+        (List.filter_eq_self.mpr (by simp)).symm
       obtain ⟨hl1, hl2⟩ := hl
       simp only
-      cases hm : (dictLoop env (dictFind env es 0) items [] (requiredIdx es 0)).1 with
+      cases hm : (dictLoop env (dictFind env es 0) items [] (requiredRef es 0)).1 with
       | error e =>
         cases hr : (dictRef (denKey env.cls es 0) items [] []).1 with
         | error v =>
@@ -984,7 +996,7 @@ theorem eval_rel : ∀ (s : Spec) (t : V), ctorErr s = none → keysOK s = true 
               simp only [FillRel] at hf
               subst hf
               simp only
-              rw [hreq, filter_isEmpty_eq_all, required_eq es 0 hkd]
+              rw [hreq, filter_isEmpty_eq_all]
               split
               · exact ⟨rfl, hl1⟩
               · exact ⟨hw.raise_ok ("_handle_dict", 2, .comb) (by simp [siteOrigins]), hl1⟩
@@ -1070,7 +1082,7 @@ theorem evalAlts_rel : ∀ (alts : List Spec) (item : V) (last : Option PyExc),
     obtain ⟨hc1, hc2⟩ := ctorErrL_cons hc
     simp only [keysOKL, Bool.and_eq_true] at hk
     have ih := eval_rel c item hc1 hk.1
-    simp only [evalAlts, denAlt]
+    rw [evalAlts, denAlt]
     rcases ih.cases with ⟨a, l, h1, h2⟩ | ⟨e, og, l, h1, h2, hcl⟩ | ⟨e, l, h1, h2, hg⟩
     · simp only [h1, h2]; exact ⟨rfl, rfl⟩
     · simp only [h1, h2, catch_glom hw "_glom_match/listlike" (by simp [catchSites]),
@@ -1078,7 +1090,6 @@ theorem evalAlts_rel : ∀ (alts : List Spec) (item : V) (last : Option PyExc),
       have ih2 := evalAlts_rel (c' :: cs) item (some e) hc2 (by simp [keysOKL, hk.2.1, hk.2.2])
       obtain ⟨i1, i2⟩ := ih2
       refine ⟨by simp only [i1], ?_⟩
-      simp only [evalAlts, denAlt] at i2 ⊢
       revert i2
       cases (evalAlts env (c' :: cs) item (some e)).1 <;> cases (denAlt env.cls (c' :: cs) item).1 <;>
         simp
@@ -1112,36 +1123,635 @@ theorem dictFind_rel : ∀ (es : List (KeyKind × Spec × Spec)) (i : Nat) (key 
     obtain ⟨hc1, hc2, hc3⟩ := ctorErrD_cons hc
     simp only [keysOKD, Bool.and_eq_true] at hk
     obtain ⟨⟨⟨_, hk1⟩, hk2⟩, hk3⟩ := hk
-    have ihk : Rel env
-        (match kind, ks with
-          | .opt _, .lit k =>
-            if pyEq key k then (.ok key, []) else (.error (raiseAt env "Optional.glomit" 0), [])
-          | _, _ => eval env ks key)
-        (match kind, ks with
-          | .opt _, .lit k => vcond (pyEq key k) key
-          | _, _ => denote env.cls ks key) := by
-      split
-      · simp only [vcond]
-        split
-        · exact Rel.mk_ok key []
-        · exact raise_rel hw "Optional.glomit" 0 .comb [] (by simp [siteOrigins])
-      · exact eval_rel ks key hc1 hk1
     have ihv := eval_rel vs val hc2 hk2
     have ihr := dictFind_rel es (i + 1) key val hc3 hk3
-    simp only [dictFind, denKey]
-    rcases ihk.cases with ⟨a, l, h1, h2⟩ | ⟨e, og, l, h1, h2, hcl⟩ | ⟨e, l, h1, h2, hg⟩
-    · simp only [h1, h2]
-      rcases ihv.cases with ⟨a', l', g1, g2⟩ | ⟨e', og', l', g1, g2, gcl⟩ | ⟨e', l', g1, g2, gg⟩
-      · simp only [g1, g2]; exact ⟨rfl, rfl, rfl, rfl⟩
-      · simp only [g1, g2]; exact ⟨rfl, gcl⟩
-      · simp only [g1, g2]; exact ⟨rfl, rfl, gg⟩
-    · simp only [h1, h2, catch_glom hw "_handle_dict" (by simp [catchSites]), classOK_glom hcl, if_true]
-      obtain ⟨i1, i2⟩ := ihr
-      exact ⟨by simp only [i1], i2⟩
-    · simp only [h1, h2, catch_glom hw "_handle_dict" (by simp [catchSites]), hg]
-      exact ⟨rfl, rfl, hg⟩
+    have hcatch := catch_glom hw "_handle_dict" (by simp [catchSites])
+    cases ho : optKey kind ks with
+    | none =>
+      simp only [dictFind, denKey, ho]
+      rcases (eval_rel ks key hc1 hk1).cases with ⟨a, l, h1, h2⟩ | ⟨e, og, l, h1, h2, hcl⟩ | ⟨e, l, h1, h2, hg⟩
+      · simp only [h1, h2]
+        rcases ihv.cases with ⟨a', l', g1, g2⟩ | ⟨e', og', l', g1, g2, gcl⟩ | ⟨e', l', g1, g2, gg⟩
+        · simp only [g1, g2]; exact ⟨rfl, rfl, rfl, rfl⟩
+        · simp only [g1, g2]; exact ⟨rfl, gcl⟩
+        · simp only [g1, g2]; exact ⟨rfl, rfl, gg⟩
+      · simp only [h1, h2, hcatch, classOK_glom hcl, if_true]
+        obtain ⟨i1, i2⟩ := ihr
+        exact ⟨by simp only [i1], i2⟩
+      · simp only [h1, h2, hcatch, hg]
+        exact ⟨rfl, rfl, hg⟩
+    | some k =>
+      simp only [dictFind, denKey, ho, vcond]
+      by_cases hp : pyEq key k = true
+      · simp only [hp, if_true, vpass]
+        rcases ihv.cases with ⟨a', l', g1, g2⟩ | ⟨e', og', l', g1, g2, gcl⟩ | ⟨e', l', g1, g2, gg⟩
+        · simp only [g1, g2]; exact ⟨rfl, rfl, rfl, rfl⟩
+        · simp only [g1, g2]; exact ⟨rfl, gcl⟩
+        · simp only [g1, g2]; exact ⟨rfl, rfl, gg⟩
+      · have hr := hw.raise_ok ("Optional.glomit", 0, .comb) (by simp [siteOrigins])
+        simp only [hp, Bool.false_eq_true, if_false, vreject, hcatch, classOK_glom hr, if_true]
+        obtain ⟨i1, i2⟩ := ihr
+        exact ⟨by simp only [i1], i2⟩
 end
 
 end
+
+/-! ### from the relation to the checker -/
+
+theorem valEq_refl (a : V) : valEq a a = true := by
+  unfold valEq; rw [V.beq_refl]; rfl
+
+theorem rel_obsSat {env : Env} {o : Out} {d : D} (h : Rel env o d) :
+    obsSat d.1 d.2 (observe env o) = true := by
+  rcases h.cases with ⟨a, l, rfl, rfl⟩ | ⟨e, og, l, rfl, rfl, hc⟩ | ⟨e, l, rfl, rfl, hg⟩
+  · simp [observe, obsSat, valEq_refl]
+  · unfold classOK at hc
+    simp only [Bool.and_eq_true] at hc
+    cases og <;> simp_all [observe, obsSat]
+  · simp [observe, obsSat, hg]
+
+/-! ### the combinators one by one (stated on the evaluator, no denotation involved) -/
+
+/-- the value a spec passes with -/
+def okVal (env : Env) (s : Spec) (t : V) : Option V :=
+  match (eval env s t).1 with
+  | .ok v => some v
+  | .error _ => none
+
+def logOf (env : Env) (s : Spec) (t : V) : Log := (eval env s t).2
+
+theorem boolGlomit_none (env : Env) (t : V) (o : Out) : boolGlomit env none t o = o := by
+  unfold boolGlomit
+  split
+  · rfl
+  · split <;> rfl
+
+theorem fst_eq {α β} {x : α × β} {a : α} (h : x.1 = a) : x = (a, x.2) := by
+  cases x; simp_all
+
+theorem evalAnd_isOk_iff (env : Env) (cs : List Spec) (t r0 : V) :
+    (∃ r, (evalAnd env cs t r0).1 = .ok r) ↔ ∀ c ∈ cs, (okVal env c t).isSome := by
+  induction cs generalizing r0 with
+  | nil => simp [evalAnd]
+  | cons c cs ih =>
+    rw [evalAnd]
+    cases hc : (eval env c t).1 with
+    | error e => simp [okVal, hc]
+    | ok v => simp [ih v, okVal, hc]
+
+theorem evalAnd_log_ok (env : Env) (cs : List Spec) (t r0 : V)
+    (h : ∀ c ∈ cs, (okVal env c t).isSome) :
+    (evalAnd env cs t r0).2 = cs.flatMap (fun c => logOf env c t) := by
+  induction cs generalizing r0 with
+  | nil => rfl
+  | cons c cs ih =>
+    rw [evalAnd]
+    have hc := h c (by simp)
+    simp only [okVal] at hc
+    cases hr : (eval env c t).1 with
+    | error e => rw [hr] at hc; simp at hc
+    | ok v =>
+      simp only [List.flatMap_cons, logOf]
+      rw [ih v (fun c' hc' => h c' (by simp [hc']))]
+      rfl
+
+/-- And stops at the first child that does not pass: exactly the children up to and
+    including it ran, and its error is the outcome -/
+theorem evalAnd_fail (env : Env) (pre : List Spec) (c : Spec) (post : List Spec) (t r0 : V) (e : PyExc)
+    (hpre : ∀ c' ∈ pre, (okVal env c' t).isSome) (hc : (eval env c t).1 = .error e) :
+    evalAnd env (pre ++ c :: post) t r0 =
+      (.error e, (pre ++ [c]).flatMap (fun c => logOf env c t)) := by
+  induction pre generalizing r0 with
+  | nil => simp [evalAnd, hc, logOf]
+  | cons p pre ih =>
+    simp only [List.cons_append]
+    rw [evalAnd]
+    have hp := hpre p (by simp)
+    simp only [okVal] at hp
+    cases hr : (eval env p t).1 with
+    | error e' => rw [hr] at hp; simp at hp
+    | ok v =>
+      simp only
+      rw [ih v (fun c' hc' => hpre c' (by simp [hc']))]
+      simp [logOf]
+
+section
+variable {env : Env} (hw : WFacts env)
+include hw
+
+/-- Or returns at the first child that passes: the children before it rejected with a
+    GlomError, it and they are exactly the children that ran -/
+theorem evalOr_first (pre : List Spec) (c : Spec) (post : List Spec) (t r : V)
+    (hpre : ∀ c' ∈ pre, ∃ e, (eval env c' t).1 = .error e ∧ env.exc.isSub e.cls "GlomError" = true)
+    (hc : (eval env c t).1 = .ok r) :
+    evalOr env (pre ++ c :: post) t = (.ok r, (pre ++ [c]).flatMap (fun c => logOf env c t)) := by
+  induction pre with
+  | nil =>
+    cases post with
+    | nil => simp only [List.nil_append, evalOr]; rw [fst_eq hc]; simp [logOf, hc]
+    | cons p post =>
+      simp only [List.nil_append]; rw [evalOr]; simp only [hc]
+      rw [fst_eq hc]; simp [logOf, hc]
+  | cons p pre ih =>
+    obtain ⟨e, he, hg⟩ := hpre p (by simp)
+    have : ∃ x xs, pre ++ c :: post = x :: xs := by
+      cases pre with
+      | nil => exact ⟨c, post, rfl⟩
+      | cons x xs => exact ⟨x, xs ++ c :: post, rfl⟩
+    obtain ⟨x, xs, hx⟩ := this
+    simp only [List.cons_append]
+    rw [hx, evalOr, ← hx]
+    simp only [he, catch_glom hw "Or._glomit" (by simp [catchSites]), hg, if_true]
+    rw [ih (fun c' hc' => hpre c' (by simp [hc']))]
+    simp [logOf]
+
+/-- if every child rejects with a GlomError, Or's outcome is the last child's error and all ran -/
+theorem evalOr_all_reject (cs : List Spec) (c : Spec) (t : V) (e : PyExc)
+    (hpre : ∀ c' ∈ cs, ∃ e, (eval env c' t).1 = .error e ∧ env.exc.isSub e.cls "GlomError" = true)
+    (hc : (eval env c t).1 = .error e) :
+    evalOr env (cs ++ [c]) t = (.error e, (cs ++ [c]).flatMap (fun c => logOf env c t)) := by
+  induction cs with
+  | nil => simp only [List.nil_append, evalOr]; rw [fst_eq hc]; simp [logOf, hc]
+  | cons p pre ih =>
+    obtain ⟨e', he, hg⟩ := hpre p (by simp)
+    have : ∃ x xs, pre ++ [c] = x :: xs := by
+      cases pre with
+      | nil => exact ⟨c, [], rfl⟩
+      | cons x xs => exact ⟨x, xs ++ [c], rfl⟩
+    obtain ⟨x, xs, hx⟩ := this
+    simp only [List.cons_append]
+    rw [hx, evalOr, ← hx]
+    simp only [he, catch_glom hw "Or._glomit" (by simp [catchSites]), hg, if_true]
+    rw [ih (fun c' hc' => hpre c' (by simp [hc']))]
+    simp [logOf]
+
+/-- a child that faults (raises something that is not a GlomError) ends Or at once -/
+theorem evalOr_fault (pre : List Spec) (c : Spec) (post : List Spec) (t : V) (e : PyExc)
+    (hpre : ∀ c' ∈ pre, ∃ e, (eval env c' t).1 = .error e ∧ env.exc.isSub e.cls "GlomError" = true)
+    (hc : (eval env c t).1 = .error e) (hg : env.exc.isSub e.cls "GlomError" = false) :
+    evalOr env (pre ++ c :: post) t = (.error e, (pre ++ [c]).flatMap (fun c => logOf env c t)) := by
+  induction pre with
+  | nil =>
+    cases post with
+    | nil => simp only [List.nil_append, evalOr]; rw [fst_eq hc]; simp [logOf, hc]
+    | cons p post =>
+      simp only [List.nil_append]; rw [evalOr]
+      simp only [hc, catch_glom hw "Or._glomit" (by simp [catchSites]), hg]
+      rw [fst_eq hc]; simp [logOf, hc]
+  | cons p pre ih =>
+    obtain ⟨e', he, hg'⟩ := hpre p (by simp)
+    have : ∃ x xs, pre ++ c :: post = x :: xs := by
+      cases pre with
+      | nil => exact ⟨c, post, rfl⟩
+      | cons x xs => exact ⟨x, xs ++ c :: post, rfl⟩
+    obtain ⟨x, xs, hx⟩ := this
+    simp only [List.cons_append]
+    rw [hx, evalOr, ← hx]
+    simp only [he, catch_glom hw "Or._glomit" (by simp [catchSites]), hg', if_true]
+    rw [ih (fun c' hc' => hpre c' (by simp [hc']))]
+    simp [logOf]
+
+/-- Switch: the keys before the first passing one rejected; only that key's value spec runs,
+    and its outcome (result or error) is Switch's outcome -/
+theorem evalSwitch_first (pre : List (Spec × Spec)) (k v : Spec) (post : List (Spec × Spec))
+    (d : Option Arg) (t kv : V)
+    (hpre : ∀ p ∈ pre, ∃ e, (eval env p.1 t).1 = .error e ∧ env.exc.isSub e.cls "GlomError" = true)
+    (hk : (eval env k t).1 = .ok kv) :
+    evalSwitch env (pre ++ (k, v) :: post) d t =
+      ((eval env v t).1, (pre ++ [(k, v)]).flatMap (fun p => logOf env p.1 t) ++ logOf env v t) := by
+  induction pre with
+  | nil => simp [evalSwitch, hk, logOf]
+  | cons p pre ih =>
+    obtain ⟨pk, pv⟩ := p
+    obtain ⟨e, he, hg⟩ := hpre (pk, pv) (by simp)
+    simp only [List.cons_append]
+    rw [evalSwitch]
+    simp only at he
+    simp only [he, catch_glom hw "Switch.glomit" (by simp [catchSites]), hg, if_true]
+    rw [ih (fun c' hc' => hpre c' (by simp [hc']))]
+    simp [logOf, List.append_assoc]
+
+/-- no key passes: the default through `arg_val`, else the combinator's own MatchError -/
+theorem evalSwitch_none (cases : List (Spec × Spec)) (d : Option Arg) (t : V)
+    (hall : ∀ p ∈ cases, ∃ e, (eval env p.1 t).1 = .error e ∧ env.exc.isSub e.cls "GlomError" = true) :
+    evalSwitch env cases d t =
+      ((match d with
+        | some a => argVal a t
+        | none => .error (raiseAt env "Switch.glomit" 0)),
+       cases.flatMap (fun p => logOf env p.1 t)) := by
+  induction cases with
+  | nil => cases d <;> simp [evalSwitch]
+  | cons p pre ih =>
+    obtain ⟨pk, pv⟩ := p
+    obtain ⟨e, he, hg⟩ := hall (pk, pv) (by simp)
+    rw [evalSwitch]
+    simp only at he
+    simp only [he, catch_glom hw "Switch.glomit" (by simp [catchSites]), hg, if_true]
+    rw [ih (fun c' hc' => hall c' (by simp [hc']))]
+    simp [logOf]
+
+end
+
+/-! ### operator-built trees -/
+
+theorem evalAnd_append (env : Env) (cs : List Spec) (b : Spec) (t r0 : V) :
+    evalAnd env (cs ++ [b]) t r0 =
+      (match (evalAnd env cs t r0).1 with
+       | .ok _ => ((eval env b t).1, (evalAnd env cs t r0).2 ++ (eval env b t).2)
+       | .error e => (.error e, (evalAnd env cs t r0).2)) := by
+  induction cs generalizing r0 with
+  | nil =>
+    simp only [List.nil_append, evalAnd]
+    cases (eval env b t).1 <;> simp
+  | cons c cs ih =>
+    simp only [List.cons_append]
+    rw [evalAnd, evalAnd]
+    cases hc : (eval env c t).1 with
+    | error e => simp
+    | ok v =>
+      simp only [ih v]
+      cases (evalAnd env cs t v).1 <;> simp [List.append_assoc]
+
+theorem evalOr_append (env : Env) (cs : List Spec) (b : Spec) (t : V) (hne : cs ≠ []) :
+    evalOr env (cs ++ [b]) t =
+      (match (evalOr env cs t).1 with
+       | .ok v => (.ok v, (evalOr env cs t).2)
+       | .error e =>
+         if catchesAt env "Or._glomit" 0 e then
+           ((eval env b t).1, (evalOr env cs t).2 ++ (eval env b t).2)
+         else (.error e, (evalOr env cs t).2)) := by
+  induction cs with
+  | nil => exact absurd rfl hne
+  | cons c cs ih =>
+    cases cs with
+    | nil =>
+      simp only [List.cons_append, List.nil_append]
+      rw [evalOr, evalOr, evalOr]
+      cases hc : (eval env c t).1 with
+      | ok v => rw [fst_eq hc]
+      | error e => simp only; split <;> first | rfl | exact fst_eq hc
+    | cons c' cs' =>
+      simp only [List.cons_append]
+      rw [evalOr]
+      conv => rhs; rw [evalOr]
+      have ih' := ih (by simp)
+      simp only [List.cons_append] at ih'
+      cases hc : (eval env c t).1 with
+      | ok v => simp only [hc]; rw [fst_eq hc]
+      | error e =>
+        simp only
+        by_cases hcatch : catchesAt env "Or._glomit" 0 e = true
+        · simp only [hcatch, if_true]
+          rw [ih']
+          cases (evalOr env (c' :: cs') t).1 with
+          | ok v => simp
+          | error e' =>
+            simp only
+            split <;> simp [List.append_assoc]
+        · simp only [hcatch, hc, Bool.false_eq_true, if_false]
+          exact fst_eq hc
+
+/-- `s'` is `s` with every flattened `And(*children, x)` / `Or(*children, x)` read as the
+    nested `And(And(children…), x)` / `Or(Or(children…), x)` -/
+inductive Unflat : Spec → Spec → Prop where
+  | refl (s : Spec) : Unflat s s
+  | andFlat {cs : List Spec} {s1 b b' : Spec} : Unflat (.and cs none) s1 → Unflat b b' →
+      Unflat (.and (cs ++ [b]) none) (.and [s1, b'] none)
+  | andPair {a a' b b' : Spec} : Unflat a a' → Unflat b b' →
+      Unflat (.and [a, b] none) (.and [a', b'] none)
+  | orFlat {cs : List Spec} {s1 b b' : Spec} : cs ≠ [] → Unflat (.or cs none) s1 → Unflat b b' →
+      Unflat (.or (cs ++ [b]) none) (.or [s1, b'] none)
+  | orPair {a a' b b' : Spec} : Unflat a a' → Unflat b b' →
+      Unflat (.or [a, b] none) (.or [a', b'] none)
+  | not {a a' : Spec} : Unflat a a' → Unflat (.not a) (.not a')
+
+theorem evalAnd_single (env : Env) (b : Spec) (t r0 : V) : evalAnd env [b] t r0 = eval env b t := by
+  rw [evalAnd]
+  cases h : (eval env b t).1 with
+  | ok v => simp only [evalAnd, List.append_nil]; exact (fst_eq h).symm
+  | error e => exact (fst_eq h).symm
+
+theorem Unflat.eval_eq (env : Env) {s s' : Spec} (h : Unflat s s') : ∀ t, eval env s t = eval env s' t := by
+  induction h with
+  | refl s => intro t; rfl
+  | @andFlat cs s1 b b' _ _ ih1 ih2 =>
+    intro t
+    have h1 := ih1 t
+    simp only [eval, boolGlomit_none] at h1 ⊢
+    rw [evalAnd_append, evalAnd, ← h1]
+    simp only [evalAnd_single, ih2 t]
+    cases (evalAnd env cs t t).1 <;> rfl
+  | @andPair a a' b b' _ _ ih1 ih2 =>
+    intro t
+    simp only [eval, boolGlomit_none]
+    rw [evalAnd, evalAnd]
+    simp only [evalAnd_single, ih1 t, ih2 t]
+  | @orFlat cs s1 b b' hne _ _ ih1 ih2 =>
+    intro t
+    have h1 := ih1 t
+    simp only [eval, boolGlomit_none] at h1 ⊢
+    rw [evalOr_append env cs b t hne, evalOr, ← h1, ih2 t]
+    simp only [evalOr]
+    cases h : (evalOr env cs t).1 with
+    | ok v => exact (fst_eq h).symm
+    | error e =>
+      simp only
+      split
+      · rfl
+      · exact (fst_eq h).symm
+  | @orPair a a' b b' _ _ ih1 ih2 =>
+    intro t
+    simp only [eval, boolGlomit_none]
+    rw [evalOr, evalOr, ih1 t, ih2 t]
+    simp only [evalOr]
+  | @not a a' _ ih =>
+    intro t
+    simp only [eval, ih t]
+
+theorem Unflat.opClass_eq {s s' : Spec} (h : Unflat s s') : opClass s = opClass s' := by
+  cases h <;> rfl
+
+theorem Unflat.hasDefault_eq {s s' : Spec} (h : Unflat s s') : hasDefault s = hasDefault s' := by
+  cases h <;> rfl
+
+/-- children of an `Or` that exists are never empty (`Or()` raises ValueError) -/
+def GoodOr (s : Spec) : Prop := ∀ cs d, s = .or cs d → cs ≠ []
+
+/-- the two readings of an operator application correspond -/
+def BuildRel (r r' : Except PyExc Spec) : Prop :=
+  match r, r' with
+  | .ok s, .ok s' => Unflat s s' ∧ GoodOr s
+  | .error x, .error y => x = y
+  | _, _ => False
+
+theorem opClass_and {s : Spec} (h : opClass s = .and_) : ∃ cs d, s = .and cs d := by
+  cases s <;> simp [opClass] at h
+  exact ⟨_, _, rfl⟩
+
+theorem opClass_or {s : Spec} (h : opClass s = .or_) : ∃ cs d, s = .or cs d := by
+  cases s <;> simp [opClass] at h
+  exact ⟨_, _, rfl⟩
+
+theorem goodOr_of_class {s : Spec} (h : opClass s ≠ .or_) : GoodOr s := by
+  intro cs d hs; subst hs; simp [opClass] at h
+
+/-- operator lookup by class in the expected overload table -/
+def shapeOf (c : OpClass) (d : String) : Option String :=
+  c.mro.findSome? (fun k => (expectedBoolOps.find? (fun r => r.1 == k && r.2.1 == d)).map (·.2.2))
+
+theorem findOp_eq (s : Spec) (d : String) : findOp expectedBoolOps s d = shapeOf (opClass s) d := rfl
+
+def andShape : String := "default?And(self,other):And(*children,other)"
+def orShape : String := "default?Or(self,other):Or(*children,other)"
+
+theorem shapeOf_and (c : OpClass) : shapeOf c "__and__" =
+    (match c with
+     | .and_ => some andShape
+     | .or_ | .not_ | .mexpr | .mtype => some "And(self,other)"
+     | .msub | .plain => none) := by cases c <;> decide
+
+theorem shapeOf_rand (c : OpClass) : shapeOf c "__rand__" =
+    (match c with
+     | .mexpr | .mtype => some "And(self,other)"
+     | _ => none) := by cases c <;> decide
+
+theorem shapeOf_or (c : OpClass) : shapeOf c "__or__" =
+    (match c with
+     | .or_ => some orShape
+     | .and_ | .not_ | .mexpr | .mtype => some "Or(self,other)"
+     | .msub | .plain => none) := by cases c <;> decide
+
+theorem shapeOf_ror (c : OpClass) : shapeOf c "__ror__" = none := by cases c <;> decide
+
+theorem shapeOf_inv (c : OpClass) : shapeOf c "__invert__" =
+    (match c with
+     | .and_ | .or_ | .not_ | .mexpr | .mtype => some "Not(self)"
+     | .msub | .plain => none) := by cases c <;> decide
+
+theorem buildShape_and (f : Bool) (x y : Spec) :
+    buildShape f "And(self,other)" x y = .ok (.and [x, y] none) := by
+  unfold buildShape; rw [if_pos (by decide)]
+
+theorem buildShape_or (f : Bool) (x y : Spec) :
+    buildShape f "Or(self,other)" x y = .ok (.or [x, y] none) := by
+  unfold buildShape; rw [if_neg (by decide), if_pos (by decide)]
+
+theorem buildShape_not (f : Bool) (x y : Spec) : buildShape f "Not(self)" x y = .ok (.not x) := by
+  unfold buildShape
+  rw [if_neg (by decide), if_neg (by decide), if_neg (by decide), if_neg (by decide),
+    if_neg (by decide), if_neg (by decide), if_pos (by decide)]
+
+theorem buildShape_andShape (f : Bool) (x y : Spec) :
+    buildShape f andShape x y =
+      if hasDefault x then .ok (.and [x, y] none) else flatAnd f x y := by
+  unfold buildShape andShape
+  rw [if_neg (by decide), if_neg (by decide), if_neg (by decide), if_neg (by decide), if_pos (by decide)]
+
+theorem buildShape_orShape (f : Bool) (x y : Spec) :
+    buildShape f orShape x y =
+      if hasDefault x then .ok (.or [x, y] none) else flatOr f x y := by
+  unfold buildShape orShape
+  rw [if_neg (by decide), if_neg (by decide), if_neg (by decide), if_neg (by decide),
+    if_neg (by decide), if_pos (by decide)]
+
+theorem applyAnd_rel {sa sa' sb sb' : Spec} (ha : Unflat sa sa') (hb : Unflat sb sb') :
+    BuildRel (applyBin expectedBoolOps true "__and__" "__rand__" sa sb)
+      (applyBin expectedBoolOps false "__and__" "__rand__" sa' sb') := by
+  unfold applyBin
+  simp only [findOp_eq, ← ha.opClass_eq, ← hb.opClass_eq, shapeOf_and, shapeOf_rand]
+  have pair : ∀ {x x' y y' : Spec}, Unflat x x' → Unflat y y' →
+      BuildRel (.ok (.and [x, y] none)) (.ok (.and [x', y'] none)) :=
+    fun hx hy => ⟨.andPair hx hy, goodOr_of_class (by simp [opClass])⟩
+  cases hca : opClass sa with
+  | and_ =>
+    obtain ⟨cs, d, rfl⟩ := opClass_and hca
+    have hd := ha.hasDefault_eq
+    simp only [buildShape_andShape]
+    cases d with
+    | some dv =>
+      have hd' : hasDefault sa' = true := by rw [← hd]; rfl
+      simp only [hd']
+      simp only [hasDefault, if_true]
+      exact pair ha hb
+    | none =>
+      have hd' : hasDefault sa' = false := by rw [← hd]; rfl
+      simp only [hd']
+      simp only [hasDefault, Bool.false_eq_true, if_false, flatAnd, children?, if_true]
+      exact ⟨.andFlat ha hb, goodOr_of_class (by simp [opClass])⟩
+  | or_ | not_ | mexpr | mtype =>
+    simp only [buildShape_and]
+    exact pair ha hb
+  | msub | plain =>
+    simp only
+    cases hcb : opClass sb <;> simp only [buildShape_and] <;> first | exact pair hb ha | exact rfl
+
+theorem applyOr_rel {sa sa' sb sb' : Spec} (ha : Unflat sa sa') (hb : Unflat sb sb')
+    (hga : GoodOr sa) :
+    BuildRel (applyBin expectedBoolOps true "__or__" "__ror__" sa sb)
+      (applyBin expectedBoolOps false "__or__" "__ror__" sa' sb') := by
+  unfold applyBin
+  simp only [findOp_eq, ← ha.opClass_eq, ← hb.opClass_eq, shapeOf_or, shapeOf_ror]
+  have pair : ∀ {x x' y y' : Spec}, Unflat x x' → Unflat y y' →
+      BuildRel (.ok (.or [x, y] none)) (.ok (.or [x', y'] none)) :=
+    fun hx hy => ⟨.orPair hx hy, by intro cs d h; injection h with h; subst h; simp⟩
+  cases hca : opClass sa with
+  | or_ =>
+    obtain ⟨cs, d, rfl⟩ := opClass_or hca
+    have hd := ha.hasDefault_eq
+    simp only [buildShape_orShape]
+    cases d with
+    | some dv =>
+      have hd' : hasDefault sa' = true := by rw [← hd]; rfl
+      simp only [hd']
+      simp only [hasDefault, if_true]
+      exact pair ha hb
+    | none =>
+      have hd' : hasDefault sa' = false := by rw [← hd]; rfl
+      simp only [hd']
+      simp only [hasDefault, Bool.false_eq_true, if_false, flatOr, children?, if_true]
+      exact ⟨.orFlat (hga cs none rfl) ha hb, by intro cs' d h; injection h with h; subst h; simp⟩
+  | and_ | not_ | mexpr | mtype =>
+    simp only [buildShape_or]
+    exact pair ha hb
+  | msub | plain => exact rfl
+
+theorem applyInv_rel {sa sa' : Spec} (ha : Unflat sa sa') :
+    BuildRel (applyInv expectedBoolOps sa) (applyInv expectedBoolOps sa') := by
+  unfold applyInv
+  simp only [findOp_eq, ← ha.opClass_eq, shapeOf_inv]
+  cases hca : opClass sa <;> simp only [buildShape_not] <;>
+    first | exact ⟨.not ha, goodOr_of_class (by simp [opClass])⟩ | exact rfl
+
+/-- leaves of an operator expression -/
+def OpExpr.leaves : OpExpr → List Spec
+  | .leaf s => [s]
+  | .band a b | .bor a b => a.leaves ++ b.leaves
+  | .inv a => a.leaves
+
+/-- the spec object the operators build decides every target exactly like the nested
+    constructor expression they denote (value, error and call log) -/
+theorem build_rel (e : OpExpr) (hl : ∀ s ∈ e.leaves, ctorErr s = none) :
+    BuildRel (build expectedBoolOps true e) (build expectedBoolOps false e) := by
+  induction e with
+  | leaf s =>
+    refine ⟨.refl s, ?_⟩
+    intro cs d h; subst h
+    exact (ctorErr_or (d := d) (hl _ (by simp [OpExpr.leaves]))).2
+  | band a b iha ihb =>
+    have ha := iha (fun s hs => hl s (by simp [OpExpr.leaves, hs]))
+    have hb := ihb (fun s hs => hl s (by simp [OpExpr.leaves, hs]))
+    simp only [build]
+    cases h1 : build expectedBoolOps true a <;> cases h2 : build expectedBoolOps false a <;>
+      rw [h1, h2] at ha <;> simp only [BuildRel] at ha
+    · subst ha; exact rfl
+    · cases h3 : build expectedBoolOps true b <;> cases h4 : build expectedBoolOps false b <;>
+        rw [h3, h4] at hb <;> simp only [BuildRel] at hb
+      · subst hb; exact rfl
+      · exact applyAnd_rel ha.1 hb.1
+  | bor a b iha ihb =>
+    have ha := iha (fun s hs => hl s (by simp [OpExpr.leaves, hs]))
+    have hb := ihb (fun s hs => hl s (by simp [OpExpr.leaves, hs]))
+    simp only [build]
+    cases h1 : build expectedBoolOps true a <;> cases h2 : build expectedBoolOps false a <;>
+      rw [h1, h2] at ha <;> simp only [BuildRel] at ha
+    · subst ha; exact rfl
+    · cases h3 : build expectedBoolOps true b <;> cases h4 : build expectedBoolOps false b <;>
+        rw [h3, h4] at hb <;> simp only [BuildRel] at hb
+      · subst hb; exact rfl
+      · exact applyOr_rel ha.1 hb.1 ha.2
+  | inv a iha =>
+    have ha := iha (fun s hs => hl s (by simp [OpExpr.leaves, hs]))
+    simp only [build]
+    cases h1 : build expectedBoolOps true a <;> cases h2 : build expectedBoolOps false a <;>
+      rw [h1, h2] at ha <;> simp only [BuildRel] at ha
+    · subst ha; exact rfl
+    · exact applyInv_rel ha.1
+
+/-! ### where a rejection originates -/
+
+/-- the sub-specs a combinator evaluates on its own target -/
+def subSpecs : Spec → List Spec
+  | .and cs _ => cs
+  | .or cs _ => cs
+  | .not c => [c]
+  | .switch cases _ => cases.flatMap (fun p => [p.1, p.2])
+  | _ => []
+
+def isCombinator : Spec → Bool
+  | .mtype | .msub _ | .mexpr .. | .and .. | .or .. | .not _ | .switch .. => true
+  | _ => false
+
+theorem evalAnd_error_mem (env : Env) (cs : List Spec) (t r0 : V) (e : PyExc)
+    (h : (evalAnd env cs t r0).1 = .error e) : ∃ c ∈ cs, (eval env c t).1 = .error e := by
+  induction cs generalizing r0 with
+  | nil => simp [evalAnd] at h
+  | cons c cs ih =>
+    rw [evalAnd] at h
+    cases hc : (eval env c t).1 with
+    | error e' =>
+      rw [hc] at h; simp only at h
+      injection h with h; subst h
+      exact ⟨c, by simp, hc⟩
+    | ok v =>
+      rw [hc] at h; simp only at h
+      obtain ⟨c', hm, hc'⟩ := ih v h
+      exact ⟨c', by simp [hm], hc'⟩
+
+theorem evalOr_error_mem (env : Env) (cs : List Spec) (t : V) (e : PyExc) (hne : cs ≠ [])
+    (h : (evalOr env cs t).1 = .error e) : ∃ c ∈ cs, (eval env c t).1 = .error e := by
+  induction cs with
+  | nil => exact absurd rfl hne
+  | cons c cs ih =>
+    cases cs with
+    | nil => rw [evalOr] at h; exact ⟨c, by simp, h⟩
+    | cons c' cs' =>
+      rw [evalOr] at h
+      cases hc : (eval env c t).1 with
+      | ok v => rw [hc] at h; simp only at h; rw [hc] at h; cases h
+      | error e' =>
+        rw [hc] at h
+        simp only at h
+        split at h
+        · simp only at h
+          obtain ⟨c'', hm, hc''⟩ := ih (by simp) h
+          exact ⟨c'', by simp [hm], hc''⟩
+        · rw [hc] at h; injection h with h; subst h
+          exact ⟨c, by simp, hc⟩
+
+theorem evalSwitch_error (env : Env) (cases : List (Spec × Spec)) (d : Option Arg) (t : V) (e : PyExc)
+    (h : (evalSwitch env cases d t).1 = .error e) :
+    (∃ p ∈ cases, (eval env p.1 t).1 = .error e ∨ (eval env p.2 t).1 = .error e) ∨
+    e = raiseAt env "Switch.glomit" 0 ∨ (∃ a, d = some a ∧ argVal a t = .error e) := by
+  induction cases with
+  | nil =>
+    cases d with
+    | none => simp only [evalSwitch] at h; injection h with h; exact Or.inr (Or.inl h.symm)
+    | some a => simp only [evalSwitch] at h; exact Or.inr (Or.inr ⟨a, rfl, h⟩)
+  | cons p rest ih =>
+    obtain ⟨k, v⟩ := p
+    rw [evalSwitch] at h
+    cases hk : (eval env k t).1 with
+    | ok kv =>
+      rw [hk] at h; simp only at h
+      exact Or.inl ⟨(k, v), by simp, Or.inr h⟩
+    | error e' =>
+      rw [hk] at h; simp only at h
+      split at h
+      · simp only at h
+        rcases ih h with ⟨p, hm, hp⟩ | h2 | h3
+        · exact Or.inl ⟨p, by simp [hm], hp⟩
+        · exact Or.inr (Or.inl h2)
+        · exact Or.inr (Or.inr h3)
+      · injection h with h; subst h
+        exact Or.inl ⟨(k, v), by simp, Or.inl hk⟩
+
+theorem argVal_error {a : Arg} {t : V} {e : PyExc} (h : argVal a t = .error e) : e = pae := by
+  cases a with
+  | const v => simp [argVal] at h
+  | t x =>
+    simp only [argVal, tRes] at h
+    split at h
+    · cases h
+    · injection h with h; exact h.symm
 
 end Glom.C10
